@@ -359,7 +359,7 @@ def pair_part(ctx, fp0, focus=None):
     fs = {e["f"] for e in ents}
     cst = dict(Funcs=fs - GENS - UNSEEDED, Gens=fs & GENS, Unseeded=fs & UNSEEDED, Params={e["p"] for e in ents} | {"p0"},
                Sigs={e["sig"] for e in ents}, Alphabet=tla_alphabet(ents), Threads=1, MAXLEN=ctx.pick(10, 16), MUT="none")
-    files = ctx.simulate("History", dict(spec="Spec", constants=cst), "pair_alphabet_histories", num=ctx.pick(3, 40),
+    files = ctx.simulate("History", dict(spec="Spec", constants=cst), "pair_alphabet_histories", num=ctx.pick(2, 40),
                          depth=ctx.pick(10, 16) + 1)
     for fp in files:
         h = parse_hist_state(open(fp).read())
